@@ -38,30 +38,55 @@
 (***************************************************************************)
 EXTENDS Naturals, Sequences, FiniteSets
 
-CONSTANTS Procs,      \* ordinary loader processes (strings)
+CONSTANTS
+          \* @type: Set(Str);
+          Procs,      \* ordinary loader processes (strings)
+          \* @type: Set(Str);
           Probes,     \* probe loaders (strings), disjoint from Procs
+          \* @type: Set(Str);
           Datasets,   \* dataset names (strings)
+          \* @type: Str -> Str;
           UrlOf,      \* [Datasets -> STRING]  the URL each loader requests
+          \* @type: Str -> Str;
           SlotOf,     \* [Datasets -> STRING]  (folder, file name) of its cache slot
+          \* @type: Int;
           NRetries,   \* the n_retries argument of the ordinary loads
+          \* @type: Int;
           ProbeRetries \* the n_retries argument of the probes (library default 3)
 
-VARIABLES cfg,    \* [All -> [d, dim, force, val, nret]]  arguments of the call
+\* (the @type comments are for Apalache, spec/apalache/CacheInd.tla; TLC ignores them)
+VARIABLES
+          \* @type: Str -> {d: Str, dim: Bool, force: Bool, val: Bool, nret: Int};
+          cfg,    \* [All -> [d, dim, force, val, nret]]  arguments of the call
+          \* @type: Str -> <<Str, Str, Str>>;
           slot,   \* [Slots -> File]            the cache
+          \* @type: Str -> {dir: Bool, dl: Str, pk: Str};
           tmp,    \* [All -> [dir, dl, pk]]     temp directory, downloaded file, pickle being written
+          \* @type: Str -> Seq(Str);
           net,    \* [Urls -> Seq(Outcome)]     what the next requests will meet; exhausted = "ok"
+          \* @type: Str -> Str;
           pc,     \* [All -> PC]
+          \* @type: Str -> Int;
           left,   \* [All -> Nat]               n_retries still available
+          \* @type: Str -> Str;
           mem,    \* [All -> {"none","good","bad"}]   the parsed array held in memory
+          \* @type: Str -> <<Str, Str, Str>>;
           pend,   \* [All -> Result]            value / exception on its way out of the call
+          \* @type: Str -> <<Str, Str, Str>>;
           res,    \* [All -> Result]            what the call delivered
           \* ---- history (ghost) variables: they never influence an action --------------------
+          \* @type: Str -> Int;
           att,    \* [All -> Nat]               download attempts made
+          \* @type: Str -> Int;
           fails,  \* [All -> Nat]               attempts that met URLError / TimeoutError
+          \* @type: Str -> Str;
           last,   \* [All -> Outcome \cup {""}] outcome of the latest attempt
+          \* @type: Str -> Bool;
           hit,    \* [All -> BOOLEAN]           the slot was a complete pickle when the call looked
+          \* @type: Set(Str);
           taint,  \* SUBSET Slots               slots written by a call with validate_checksum = FALSE
                   \*                            from a payload that does not have the pinned checksum
+          \* @type: <<Str, Str, Str>>;
           act     \* <<action name, process, argument>>  label of the step that produced this state (hidden by View)
 
 All   == Procs \cup Probes
@@ -72,10 +97,15 @@ Errors   == {"URLError", "TimeoutError"}
 Payloads == {"ok", "corrupt", "truncated"}
 Outcomes == Errors \cup Payloads
 
+\* @type: <<Str, Str, Str>>;
 Absent  == <<"absent", "", "">>
+\* @type: <<Str, Str, Str>>;
 Partial == <<"partial", "", "">>
+\* @type: (Str, Str) => <<Str, Str, Str>>;
 Data(d, k) == <<"data", d, k>>
+\* @type: <<Str, Str, Str>>;
 None    == <<"none", "", "">>
+\* @type: Str => <<Str, Str, Str>>;
 Exc(c)  == <<"exc", c, "">>
 NoTmp   == [dir |-> FALSE, dl |-> "absent", pk |-> "absent"]
 
@@ -283,6 +313,7 @@ SlotSound(s) ==
 CacheSound == \A s \in Slots : SlotSound(s)
 
 \* with validate_checksum on, nothing but the pinned payload is returned or cached
+\* @type: <<Str, Str, Str>> => Bool;
 Unverified(v) == v[1] = "data" /\ v[3] # "good"
 NeverUnverified ==
     /\ \A s \in Slots : Unverified(slot[s]) => s \in taint
